@@ -1478,6 +1478,13 @@ func sliceToArrayPointer(t_dst, t_src types.Type, x value) value {
 // interface itype.
 // On success it returns "", on failure, an error message.
 func checkInterface(i *interpreter, itype *types.Interface, x iface) string {
+	if x.t == errorType {
+		// an error made by a stub: it has exactly the method Error() string
+		if itype.NumMethods() == 0 || (itype.NumMethods() == 1 && itype.Method(0).Name() == "Error") {
+			return ""
+		}
+		return fmt.Sprintf("interface conversion: %v is not %v", x.t, itype)
+	}
 	if meth, _ := types.MissingMethod(x.t, itype, true); meth != nil {
 		return fmt.Sprintf("interface conversion: %v is not %v: missing method %s",
 			x.t, itype, meth.Name())
